@@ -6,6 +6,7 @@
     boundary, full-range noise. *)
 From Coq Require Import ZArith List Lia Bool.
 From SF Require Import Bits Endian PcmConv ConvProofs Stream StreamProofs.
+From SF Require Dpcm DpcmProofs.
 Import ListNotations.
 Local Open Scope Z_scope.
 
@@ -47,6 +48,27 @@ Theorem block_codec_roundtrip : forall B, (0 < B)%nat -> forall enc dec : list Z
   exists pad, read_all dec (written_file B enc calls) = xs ++ repeat 0 pad /\ (pad < B)%nat.
 Proof. exact block_stream_roundtrip. Qed.
 
+(** the DPCM codecs of src/xi.c, concretely (kernels s2dles / dles2s / i2dles / dles2i / s2dsc / dsc2s as coded, K-tied):
+    any shorts, any partition into write calls, any partition of the stored codes into read calls, any length *)
+Theorem dpcm16_stream_roundtrip_exact : forall wcalls rcalls,
+  Forall DpcmProofs.is_short (concat wcalls) -> concat rcalls = fst (Dpcm.run_calls Dpcm.s2dles 0 wcalls) ->
+  fst (Dpcm.run_calls Dpcm.dles2s 0 rcalls) = concat wcalls.
+Proof. exact DpcmProofs.dpcm16_stream_roundtrip. Qed.
+Theorem dpcm16_int_roundtrip_exact_when_low_bits_zero : forall xs l, Forall DpcmProofs.is_int32 xs ->
+  Forall (fun x => x mod 65536 = 0) xs -> fst (Dpcm.dles2i l (fst (Dpcm.i2dles l xs))) = xs.
+Proof. exact DpcmProofs.dpcm16_int_roundtrip_exact. Qed.
+Theorem dpcm8_short_roundtrip_exact_when_low_bits_zero : forall xs l, Forall DpcmProofs.is_short xs ->
+  Forall (fun x => x mod 256 = 0) xs -> fst (Dpcm.dsc2s l (fst (Dpcm.s2dsc l xs))) = xs.
+Proof. exact DpcmProofs.dpcm8_short_roundtrip_exact. Qed.
+Theorem dpcm8_int_roundtrip_keeps_top_byte : forall xs l, Forall DpcmProofs.is_int32 xs ->
+  fst (Dpcm.dsc2i l (fst (Dpcm.i2dsc l xs))) = map (fun x => x / 16777216 * 16777216) xs.
+Proof. exact DpcmProofs.dpcm8_int_roundtrip. Qed.
+
+Example c01_dpcm_witness :
+  fst (Dpcm.run_calls Dpcm.dles2s 0 [[-32768]; [-1; 1]]) = [-32768; 32767; -32768]
+  /\ fst (Dpcm.run_calls Dpcm.s2dles 0 [[-32768; 32767]; [-32768]]) = [-32768; -1; 1].
+Proof. split; reflexivity. Qed.
+
 Example c01_witness :
   rd_short P24 (wr_short P24 (-32768)) = -32768 /\ rd_int P16 (wr_int P16 (-2147483648)) = -2147483648 /\
   read_all (fun b => b) (written_file 3 (fun b => b) [[1; 2]; [3; 4; 5; 6]; [7]]) = [1; 2; 3; 4; 5; 6; 7; 0; 0].
@@ -56,3 +78,7 @@ Print Assumptions short_roundtrip_exact.
 Print Assumptions int_roundtrip_exact_when_low_bits_zero.
 Print Assumptions staging_loop_is_map.
 Print Assumptions block_codec_roundtrip.
+Print Assumptions dpcm16_stream_roundtrip_exact.
+Print Assumptions dpcm16_int_roundtrip_exact_when_low_bits_zero.
+Print Assumptions dpcm8_short_roundtrip_exact_when_low_bits_zero.
+Print Assumptions dpcm8_int_roundtrip_keeps_top_byte.
